@@ -172,6 +172,22 @@ CLAIMED["C13"] = (
     "DESIGN.md 5 C13",
     "events (all declared events) is compared through the styles only.  One genuine defect repaired (fix: e53a549).")
 
+CLAIMED["C18"] = (
+    "Theorems (Properties/C18.v): the graph has exactly one node per state plus the initial pseudo-node with "
+    "pairwise different identifiers; exactly one edge leaves the pseudo-node and points at the initial state; "
+    "every external transition is an edge from its source to its target carrying its events and guards and "
+    "every other edge is such a transition (internal transitions yield no edge and are listed inside their "
+    "state); a double border exactly on final states; for an instance exactly the current state is highlighted, "
+    "for a class none.  Tied to /repo by building random machine classes (finals, multi-event / self / internal "
+    "transitions, cond / unless guards, four declaration styles), taking the real pydot graph of the class and "
+    "of an instance in 1..all of its states, and comparing nodes (id, peripheries, highlight, internal lines) and "
+    "edges (source, target, events, guards with ! for unless) as multisets with the model in coqc.",
+    "Coq proof (node/edge characterisation) + differential correspondence on the pydot object",
+    "DESIGN.md 5 C18",
+    "Edge multiplicity (exactly one edge per transition when several transitions join the same two states) is "
+    "decided by the multiset comparison of the correspondence; label wording, colours other than the highlight, "
+    "fonts are not part of the property.")
+
 PENDING_REASON = "check not built yet in this session (work in progress; see DESIGN.md 9 for the order of work)"
 
 ALL = [f"C{i:02d}" for i in range(1, 19)]
